@@ -7,11 +7,17 @@
     array sizes appear where the code relies on them ([copy_into], the
     split positions of [decrypt] and [unmarshal]).
 
+    Three facts about the code are regenerated from the source
+    (Generated/SnaclFacts.v) and are parameters of [decrypt_c],
+    [derive_key_c], [new_secret_key_c] (section "The wrapper as the source
+    reader found it"); the plain [decrypt], [derive_key], [new_secret_key] are
+    their instance at the facts of the pinned code.
+
     The cryptographic primitives are Section variables: nothing is assumed
     about them in this file.  The ideal laws the theorems need are *stated*
     below ([law_...], plain definitions, used as explicit premises) and are
     *proved* for the toy instance at the end of SnaclProofs.v. *)
-From Verif Require Import Base.Prelude.
+From Verif Require Import Base.Prelude Generated.SnaclFacts.
 Local Open Scope N_scope.
 
 Definition bytes := list N.
@@ -31,6 +37,10 @@ Inductive err := ErrInvalidPassword | ErrMalformed | ErrDecryptFailed | ErrKdf |
 Inductive result (A : Type) := Ok (a : A) | Err (e : err).
 Arguments Ok {A} a.
 Arguments Err {A} e.
+
+(** "fails with an error instead of returning data" (the property's words;
+    WHICH error is not part of the property). *)
+Definition fails {A : Type} (r : result A) : Prop := exists e, r = Err e.
 
 Fixpoint bytes_eqb (a b : bytes) : bool :=
   match a, b with
@@ -192,6 +202,109 @@ Section Wrapper.
     end.
 End Wrapper.
 
+(** * The wrapper as the source reader found it
+
+    Three facts about snacl.go are regenerated from the source into
+    Generated/SnaclFacts.v (lib/extract_c17.py: go/ast reader, behavioural
+    probe when a shape is not recognised) and are parameters of the
+    definitions below; the definitions above are their instance at
+    [facts_ideal].  Every theorem of Properties/C17.v about Decrypt or
+    DeriveKey is stated on these definitions at the regenerated facts
+    ([snacl_facts], end of this file) and needs the fact to hold, so a
+    source change that falsifies one breaks the theorem (and not only the run):
+
+    - [cf_pw_unchanged]: deriveKey hands the passphrase bytes to scrypt.Key
+      unchanged (in NewSecretKey and in DeriveKey).  When false the code
+      applies SOME function first; it is the parameter [pre] (nothing is known
+      about it: trimming, case folding, truncation ...).
+    - [cf_digest_cmp]: [None] = DeriveKey compares the whole digest
+      (subtle.ConstantTimeCompare(digest[:], sk.Parameters.Digest[:])),
+      [Some n] = only the first n bytes of both.
+    - [cf_open_checked]: Decrypt returns ErrDecryptFailed when secretbox.Open
+      reports failure.  When false the failure is ignored and Decrypt returns
+      what Open left (nil: the empty byte string) with a nil error. *)
+Record code_facts := {
+  cf_pw_unchanged : bool;
+  cf_digest_cmp : option nat;
+  cf_open_checked : bool }.
+Definition facts_ideal : code_facts :=
+  {| cf_pw_unchanged := true; cf_digest_cmp := None; cf_open_checked := true |}.
+
+Section AsRead.
+  Variable cf : code_facts.
+  Variable pre : bytes -> bytes.
+  Variable open : bytes -> bytes -> bytes -> option bytes.
+  Variable kdf : bytes -> bytes -> Z -> Z -> Z -> option bytes.
+  Variable hash : bytes -> bytes.
+
+  (** what deriveKey hands to the kdf *)
+  Definition kdf_input (pw : bytes) : bytes := if cf_pw_unchanged cf then pw else pre pw.
+  (** the comparison of DeriveKey *)
+  Definition digest_matches (a b : bytes) : bool :=
+    match cf_digest_cmp cf with
+    | None => bytes_eqb a b
+    | Some n => bytes_eqb (firstn n a) (firstn n b)
+    end.
+
+  Definition decrypt_c (k c : bytes) : result bytes :=
+    if (length c <? NonceSize)%nat then Err ErrMalformed
+    else
+      match open k (firstn NonceSize c) (skipn NonceSize c) with
+      | Some m => Ok m
+      | None => if cf_open_checked cf then Err ErrDecryptFailed else Ok []
+      end.
+
+  Definition derive_key_c (sk : secret_key) (pw : bytes) : secret_key * option err :=
+    match derive_key_raw kdf sk (kdf_input pw) with
+    | (sk', Some e) => (sk', Some e)
+    | (sk', None) =>
+      if digest_matches (hash (sk_key sk')) (digest (sk_params sk')) then (sk', None)
+      else (sk', Some ErrInvalidPassword)
+    end.
+
+  Definition new_secret_key_c (pw : bytes) (rnd : option bytes) (n r p : Z) : result secret_key :=
+    new_secret_key kdf hash (kdf_input pw) rnd n r p.
+
+  Definition mgr_decrypt_c (locked : bool) (kt : N) (ks : mgr_keys) (c : bytes) : mgr_result :=
+    match select_crypto_key locked kt ks with
+    | inl e => MErr e
+    | inr k => match decrypt_c k c with Ok m => MOk m | Err e => MErr (MErrCrypto e) end
+    end.
+
+  (** ** waddrmgr: where a passphrase is checked (waddrmgr/manager.go)
+
+      [OpOpen]            loadManager: masterKeyPub.DeriveKey; EVERY error is
+                          reported as ErrWrongPassphrase;
+      [OpUnlock]          Manager.Unlock on a locked manager:
+                          masterKeyPriv.DeriveKey; ErrInvalidPassword ->
+                          ErrWrongPassphrase, anything else -> ErrCrypto;
+      [OpUnlockUnlocked]  Manager.Unlock on an unlocked manager: the salted
+                          hash (SHA-512 there; [hash] here) of the presented
+                          passphrase against the one recorded at unlock time;
+      [OpChangePub/Priv]  ChangePassphrase: DeriveKey on a copy of the public /
+                          private parameters, errors as in Unlock.
+      [mp_salt] is privPassphraseSalt, [mp_priv_pw] the passphrase the
+      manager was unlocked with. *)
+  Inductive mgr_pw_op := OpOpen | OpUnlock | OpUnlockUnlocked | OpChangePub | OpChangePriv.
+  Inductive mgr_pw_result := PwAccepted | PwWrong | PwCrypto.
+  Record mgr_pw_state := { mp_pub : secret_key; mp_priv : secret_key; mp_salt : bytes; mp_priv_pw : bytes }.
+
+  Definition mgr_pw_of_derive (all_wrong : bool) (r : secret_key * option err) : mgr_pw_result :=
+    match snd r with
+    | None => PwAccepted
+    | Some ErrInvalidPassword => PwWrong
+    | Some _ => if all_wrong then PwWrong else PwCrypto
+    end.
+  Definition mgr_pw_check (op : mgr_pw_op) (st : mgr_pw_state) (pw : bytes) : mgr_pw_result :=
+    match op with
+    | OpOpen => mgr_pw_of_derive true (derive_key_c (mp_pub st) pw)
+    | OpUnlock | OpChangePriv => mgr_pw_of_derive false (derive_key_c (mp_priv st) pw)
+    | OpChangePub => mgr_pw_of_derive false (derive_key_c (mp_pub st) pw)
+    | OpUnlockUnlocked =>
+      if bytes_eqb (hash (mp_salt st ++ pw)) (hash (mp_salt st ++ mp_priv_pw st)) then PwAccepted else PwWrong
+    end.
+End AsRead.
+
 (** SecretKey.Marshal: <salt 32><digest 32><N 8 LE><R 8 LE><P 8 LE>. *)
 Definition marshal_params (p : params) : bytes :=
   copy_into KeySize (salt p) ++ copy_into DigestSize (digest p)
@@ -319,3 +432,9 @@ Definition t_decrypt := decrypt toy_open.
 Definition t_new_secret_key := new_secret_key (toy_kdf toy_hash) toy_hash.
 Definition t_derive_key := derive_key (toy_kdf toy_hash) toy_hash.
 Definition t_mgr_decrypt := mgr_decrypt toy_open.
+
+(** * The facts regenerated from snacl/snacl.go (Generated/SnaclFacts.v) *)
+Definition snacl_facts : code_facts :=
+  {| cf_pw_unchanged := derive_passes_password_unchanged;
+     cf_digest_cmp := digest_compared_prefix;
+     cf_open_checked := decrypt_checks_open |}.
